@@ -680,9 +680,12 @@ def _slq_gauss_radau(
             z = z - (Q @ (Q.T @ z.T)).T
 
         norm2 = jnp.sum(z * z, axis=1)
-        denom = jnp.where(norm2 > eps, norm2, 1.0)
-        v0 = z / jnp.sqrt(denom)[:, None]
-        return v0, norm2
+        # A probe that lies (numerically) in the deflated space contributes
+        # nothing: zero it instead of running Lanczos on round-off noise
+        nonzero = norm2 > eps
+        denom = jnp.where(nonzero, norm2, 1.0)
+        v0 = jnp.where(nonzero[:, None], z / jnp.sqrt(denom)[:, None], 0.0)
+        return v0, jnp.where(nonzero, norm2, 0.0)
 
     def lanczos_batch(batch_key, bsz):
         probes, norm2 = make_batch_probes(batch_key, bsz)
